@@ -89,6 +89,11 @@ def gen_plan(prop, seed, tier):
             # a curve that carries weights only, with strongly varying weights (a lossy refit may then change sign)
             spec["weights"] = [M.enc(Fraction(rng.choice([1, 1, 2, 5, 8, 1, 3]), rng.choice([1, 1, 3, 4, 5, 20]))) for _ in spec["weights"]]
         ops.append({"op": "create", "layout": layout, "src": rng.randrange(8), "spec": spec, "noctrl": noctrl})
+        if noctrl and layout == "independent" and "weights" in spec:
+            # forced (lossy) changes of the knot vector of the weights-only curve just created (a = -1: the newest curve)
+            for _ in range(rng.randint(1, 3)):
+                ops.append({"op": rng.choice(["knot_remove", "degree_decrease", "update", "knot_insert", "degree_increase"]),
+                            "a": -1, "b": rng.randrange(8), "faulty": False, "r": rng.randrange(1 << 30), "tolnone": True})
     nops = rng.randint(3, 22 if tier == "thorough" else 12)
     for _ in range(nops):
         faulty = rng.random() < cfg["fault_rate"]
@@ -359,6 +364,7 @@ class CurveEngine:
         a = world[op["a"] % len(world)]
         b = world[op["b"] % len(world)]
         pre = [self.freeze(c) for c in world]
+        self.cur_op = op
         call, receiver, invalid, label = self.prepare(ctx, kind, a, b, op["faulty"], rng)
         if call is None:
             ctx.log(kind, "skip")
@@ -522,6 +528,8 @@ class CurveEngine:
             if a.weights is not None and (p > 2 or a.npts > 5):
                 return None, None, False, kind
             tol = rng.choice([None, 1e-9, 1e-9, 1e-3, 0, "default"])
+            if self.cur_op.get("tolnone"):
+                tol = None
             if faulty or len(ks) < 3:
                 r = rng.random()
                 if r < 0.4:
@@ -552,7 +560,7 @@ class CurveEngine:
             if faulty:
                 t = rng.choice([0, -1, p + 1, p + 3, "1", None])
                 return (lambda: a.degree_decrease(t)), a, True, "degree_decrease"
-            tol = rng.choice([1e-9, 1e-9, None, 1e-3])
+            tol = None if self.cur_op.get("tolnone") else rng.choice([1e-9, 1e-9, None, 1e-3])
             t = rng.choice([1, 1, 2, 2, 3])      # multi-degree reductions: the first degree may be feasible, the next not
             if t > max(p, 1):
                 t = max(p, 1)
@@ -645,7 +653,9 @@ class CurveEngine:
                 def call():
                     a.knotvector = newL
                 return call, a, inv, "knotvector-setter"
-            tol = rng.choice([1e-9, None, 1e-3])
+            tol = None if self.cur_op.get("tolnone") else rng.choice([1e-9, None, 1e-3])
+            if self.cur_op.get("tolnone") and not faulty and len(ks) > 2:
+                newL = [k for k in raw if k != ks[1 + rng.randrange(len(ks) - 2)]]   # drop one interior knot entirely
             return (lambda: a.update(newL, tol)), a, inv, "update"
         if kind == "set_degree":
             if has and a.weights is not None and (p > 2 or a.npts > 5):
